@@ -241,19 +241,14 @@ namespace smt
         std::string s_expr = "amo";
         for (auto it0 = ls.cbegin(); it0 != ls.cend(); ++it0)
             if (value(*it0) == True)
-            {
+            { // this literal already holds, hence the at-most-one holds iff all the other literals are false..
+                std::vector<lit> others;
+                for (size_t i = 0; i < lits_size; ++i)
+                    others.push_back(!ls[i]);
                 for (auto it1 = it0 + 1; it1 != ls.cend(); ++it1)
-                {
-                    if (value(*it1) == True || *it1 == !p)
-                        return FALSE_lit; // the at-most-one cannot be satisfied..
-                    else if (value(*it1) != False && *it1 != p)
-                    { // we need to include this literal in the at-most-one..
-                        p = *it1;
-                        s_expr += to_string(p);
-                        ls[lits_size++] = p;
-                    }
-                }
-                break;
+                    if (*it1 != *it0)
+                        others.push_back(!*it1);
+                return new_conj(std::move(others));
             }
             else if (value(*it0) != False && *it0 != p)
             { // we need to include this literal in the at-most-one..
@@ -315,19 +310,14 @@ namespace smt
         std::string s_expr = "^";
         for (auto it0 = ls.cbegin(); it0 != ls.cend(); ++it0)
             if (value(*it0) == True)
-            {
+            { // this literal already holds, hence the exact-one holds iff all the other literals are false..
+                std::vector<lit> others;
+                for (size_t i = 0; i < j; ++i)
+                    others.push_back(!ls[i]);
                 for (auto it1 = it0 + 1; it1 != ls.cend(); ++it1)
-                {
-                    if (value(*it1) == True || *it1 == !p)
-                        return FALSE_lit; // the exact-one cannot be satisfied..
-                    else if (value(*it1) != False && *it1 != p)
-                    { // we need to include this literal in the exact-one..
-                        p = *it1;
-                        s_expr += to_string(p);
-                        ls[j++] = p;
-                    }
-                }
-                break;
+                    if (*it1 != *it0)
+                        others.push_back(!*it1);
+                return new_conj(std::move(others));
             }
             else if (value(*it0) != False && *it0 != p)
             { // we need to include this literal in the exact-one..
